@@ -10,6 +10,7 @@ INVARIANT PayTruthful
 INVARIANT ProcessedAll
 INVARIANT ContentKept
 INVARIANT ProcessRefines
+INVARIANT WrapSound
 INVARIANT EmitState
 PROPERTY WriteOnce
 CHECK_DEADLOCK FALSE
